@@ -13,6 +13,8 @@ import (
 	"go/types"
 	"sort"
 	"strings"
+
+	"golang.org/x/tools/go/packages"
 )
 
 const (
@@ -476,4 +478,206 @@ func dfApplyMutex(st dfState, key, op string) {
 	case "Unlock", "RUnlock":
 		st[key] = dfU
 	}
+}
+
+// ---- interprocedural transfer ----
+
+// dfInterproc gives dfFlow a call transfer that looks through the module's own
+// functions: a call of a function (or an immediately applied / deferred
+// function literal) that — directly or through further static calls — performs
+// one of the primitive operations changes the state the way its body does
+// (the callee is interpreted with the caller's state as entry state; the result
+// is the join over its normal exits). So `vm.lockCores()` with
+// `func (vm *VM) lockCores() { vm.Cores.Lock.Lock() }` is a Lock, and
+// `defer func() { mu.Unlock() }()` an Unlock at exit. Functions that never
+// reach a primitive operation are skipped (identity).
+type dfInterproc struct {
+	c *Ctx
+	// Prim applies a primitive operation to st and reports whether call is one.
+	Prim    func(info *types.Info, call *ast.CallExpr, st dfState) bool
+	touches map[*types.Func]bool
+	memo    map[string]dfState
+	active  map[*types.Func]bool
+}
+
+func newDfInterproc(c *Ctx, prim func(info *types.Info, call *ast.CallExpr, st dfState) bool) *dfInterproc {
+	z := &dfInterproc{c: c, Prim: prim, touches: map[*types.Func]bool{}, memo: map[string]dfState{}, active: map[*types.Func]bool{}}
+	// functions that (transitively, through static calls) contain a primitive operation
+	calls := map[*types.Func][]*types.Func{}
+	for _, p := range c.All {
+		for _, fd := range AllFuncDecls(p) {
+			obj, _ := p.TypesInfo.Defs[fd.Name].(*types.Func)
+			if obj == nil {
+				continue
+			}
+			ast.Inspect(fd.Body, func(n ast.Node) bool {
+				call, ok := n.(*ast.CallExpr)
+				if !ok {
+					return true
+				}
+				if prim(p.TypesInfo, call, dfState{}) {
+					z.touches[obj] = true
+				} else if fn := CalleeOf(p.TypesInfo, call); fn != nil {
+					if o := fn.Origin(); o != nil {
+						fn = o
+					}
+					calls[obj] = append(calls[obj], fn)
+				}
+				return true
+			})
+		}
+	}
+	for changed := true; changed; {
+		changed = false
+		for f, cs := range calls {
+			if z.touches[f] {
+				continue
+			}
+			for _, g := range cs {
+				if z.touches[g] {
+					z.touches[f] = true
+					changed = true
+					break
+				}
+			}
+		}
+	}
+	return z
+}
+
+// CallFn returns the Call hook for a dfFlow over a body typed by info.
+func (z *dfInterproc) CallFn(info *types.Info) func(call *ast.CallExpr, st dfState) {
+	return func(call *ast.CallExpr, st dfState) { z.transfer(info, call, st, 0) }
+}
+
+func (z *dfInterproc) transfer(info *types.Info, call *ast.CallExpr, st dfState, depth int) {
+	if z.Prim(info, call, st) {
+		return
+	}
+	if depth > 4 {
+		return
+	}
+	var body *ast.BlockStmt
+	binfo := info
+	key := ""
+	var fn *types.Func
+	if lit, ok := ast.Unparen(call.Fun).(*ast.FuncLit); ok {
+		body = lit.Body
+	} else if fn = CalleeOf(info, call); fn != nil {
+		if o := fn.Origin(); o != nil {
+			fn = o
+		}
+		if !z.touches[fn] || z.active[fn] {
+			return
+		}
+		ref := moDeclOf(z.c, fn)
+		if ref == nil || ref.fd.Body == nil {
+			return
+		}
+		body, binfo = ref.fd.Body, ref.pkg.TypesInfo
+		key = fn.FullName()
+	}
+	if body == nil {
+		return
+	}
+	entry := dfState{}
+	for k, v := range st {
+		if !strings.HasPrefix(k, "defer|") {
+			entry[k] = v
+		}
+	}
+	var out dfState
+	mk := ""
+	if key != "" {
+		mk = key + "|" + entry.String()
+		if m, ok := z.memo[mk]; ok {
+			out = m
+		}
+	}
+	if out == nil {
+		if fn != nil {
+			z.active[fn] = true
+		}
+		fl := &dfFlow{info: binfo}
+		fl.Call = func(c2 *ast.CallExpr, s2 dfState) { z.transfer(binfo, c2, s2, depth+1) }
+		fl.Run(body, entry)
+		for _, e := range fl.Exits {
+			if e.kind == "return" {
+				out = dfJoin(out, e.st)
+			}
+		}
+		if fl.EndExit != nil {
+			out = dfJoin(out, fl.EndExit.st)
+		}
+		if fn != nil {
+			delete(z.active, fn)
+		}
+		if out == nil {
+			out = dfState{"<noreturn>": dfW}
+		}
+		if mk != "" {
+			z.memo[mk] = out
+		}
+	}
+	if _, never := out["<noreturn>"]; never {
+		return // the callee does not return normally: nothing after the call executes with a new state
+	}
+	for k := range st {
+		if !strings.HasPrefix(k, "defer|") {
+			st[k] = out.get(k)
+		}
+	}
+	for k, v := range out {
+		if !strings.HasPrefix(k, "defer|") {
+			st[k] = v
+		}
+	}
+}
+
+// dfReaching: the declared functions of the module whose body contains a node
+// satisfying direct, or that statically call such a function (transitively).
+func dfReaching(c *Ctx, direct func(p *packages.Package, n ast.Node) bool) map[*types.Func]bool {
+	reach := map[*types.Func]bool{}
+	calls := map[*types.Func][]*types.Func{}
+	for _, p := range c.All {
+		for _, fd := range AllFuncDecls(p) {
+			obj, _ := p.TypesInfo.Defs[fd.Name].(*types.Func)
+			if obj == nil {
+				continue
+			}
+			ast.Inspect(fd.Body, func(n ast.Node) bool {
+				if n == nil {
+					return true
+				}
+				if direct(p, n) {
+					reach[obj] = true
+				}
+				if call, ok := n.(*ast.CallExpr); ok {
+					if fn := CalleeOf(p.TypesInfo, call); fn != nil {
+						if o := fn.Origin(); o != nil {
+							fn = o
+						}
+						calls[obj] = append(calls[obj], fn)
+					}
+				}
+				return true
+			})
+		}
+	}
+	for changed := true; changed; {
+		changed = false
+		for f, cs := range calls {
+			if reach[f] {
+				continue
+			}
+			for _, g := range cs {
+				if reach[g] {
+					reach[f] = true
+					changed = true
+					break
+				}
+			}
+		}
+	}
+	return reach
 }
